@@ -389,6 +389,20 @@ theorem evm_valueless_call_programs_as_modelled (k : Kind) (h : CallHdr N) (hx :
     simp [progOf, progCall, progCallCode, progDelegateCall, progStaticCall, execC, stepC, hf, he, hc]
 example : (hdr0 true : CallHdr Nat).xfer = none := rfl
 
+/-- `(*EVM).create` (CREATE / CREATE2: a constructor frame) as the fork has it now: the same discipline as `Call` — balance
+check before any snapshot, Snapshot, endowment Transfer, run the init code, on error RevertToSnapshot and burn the gas unless
+it REVERTed — for ANY init-code program, header, StateDB and gas.  (The creator's nonce bump before the snapshot and the
+new account's nonce / code are EVM-side account state, not part of the model's View; the constructor returns no runtime
+code, so the code-size, 0xEF and deposit checks are vacuous.)  Hence a constructor that calls a precompile is a `call`
+node of the frame model, and every theorem above applies to it -/
+theorem evm_create_program_as_modelled (h : CallHdr N) (callee : St N → Outcome × St N × Nat) (s : St N) (gas : Nat) :
+    runCall progCreate h callee s gas = some (callModel h callee s gas) := by
+  unfold runCall progCreate callModel
+  by_cases hf : h.unfunded s.native
+  · simp [execC, stepC, hf]
+  · rcases hc : callee (s.enter h) with ⟨o, s1, g1⟩
+    cases o <;> simp [execC, stepC, hf, hc]
+
 /-- the frame model's `resolve` = the caller's side (`post`) applied to what `evm.Call` returned -/
 theorem resolve_is_post_of_fork_call (h : CallHdr N) (callee : St N → Outcome × St N × Nat) (s : St N) (keep gas : Nat) :
     resolve h s.journal.length keep (if h.unfunded s.native then (.revert, s, gas) else callee (s.enter h)) =
